@@ -3,7 +3,7 @@ from pathlib import Path
 
 import histgen
 from vlib import Check
-from checks.exporter_common import run_histories, rng_for
+from checks.exporter_common import run_histories, rng_for, exporter_x_models, generated_x_histories
 
 ALLQ, ALLS = histgen.ALL_QRH, histgen.ALL_SIGH
 
@@ -52,12 +52,16 @@ def history_for(rng, mask):
 
 def run(tier):
     chk = Check("C04", tier, "model_checking")
-    chk.rule = ("mask family: all-ones, all-zeros, every single bit cleared and every single bit alone for the 18 "
+    chk.rule = ("model: MCExporterX (exporter + application-kept block, every written block states the set it was filled "
+                "under); mask family: all-ones, all-zeros, every single bit cleared and every single bit alone for the 18 "
                 "query-response and 17 signature hints, all RR / other-data masks, all subsets of four section bits, random "
                 "masks; each with records that set every optional member; TLC checks on the real bytes: no member a cleared "
-                "bit excludes, every table entry reachable from a stored item, hints in the preamble = hints applied")
+                "bit excludes, every table entry reachable from a stored item, hints in the preamble = hints applied; the same "
+                "masks in force through an in-place edit of the active set, and on an application-kept block armed with set "
+                "#1, written, cleared and re-used")
     chk.assumptions = ["TLC + CommunityModules", "Records.tla hint table transcribed from RFC 8618 section 7.3.1.1.1",
                        "driver logging (harness/exp_driver.cpp)"]
+    exporter_x_models(chk, tier)
     rng = rng_for(chk, 4)
     fam = mask_family(rng, tier)
     hs = [history_for(rng, m) for m in fam]
@@ -70,6 +74,21 @@ def run(tier):
         h["preamble"]["bps"][0] = wide
         h["ops"] = [{"op": "editbp", "bp": narrow}, {"op": "wb"}] + h["ops"]
         hs.append(h)
+    # a block the application keeps itself (CdnsBlock API + write_block(block)), armed with a parameter set other than
+    # #0, written, cleared and re-used: every block it yields must state the set whose hints were applied to it
+    for k, m in enumerate(fam[:: (5 if tier == "quick" else 1)]):
+        h = history_for(rng, m)
+        narrow = h["preamble"]["bps"][0]
+        wide = dict(narrow, qrh=histgen.nat(ALLQ), sigh=histgen.nat(ALLS), rrh=histgen.nat(3), odh=histgen.nat(3))
+        h["preamble"]["bps"] = [narrow, wide] if k % 2 == 0 else [wide, narrow]
+        recs = [dict(o, op="x" + o["op"]) for o in h["ops"] if o["op"] in ("qr", "aec", "mm")]
+        h["ops"] = ([{"op": "xnew" if k % 4 < 2 else "xset", "i": 1}] + recs[:3] + [{"op": "xwb"}, {"op": "xclear"}] + recs[3:]
+                    + [{"op": "xwb"}, {"op": "xclear"}] + recs[:2] + [{"op": "xwb"}])
+        hs.append(h)
+    # (G) TLC-generated histories of exporter + kept block in which the kept block is written after a clear or a re-arm
+    gx = generated_x_histories(chk, 4 if tier == "quick" else 5, limit=600 if tier == "quick" else 8000,
+                               want=lambda h: any(o["op"] in ("xclear", "xset") for o in h["ops"]))
+    hs += gx
     m = run_histories(chk, hs, {"C04"}, label="c04")
     chk.distinct = len(set(fam))
     chk.extra["masks"] = len(fam)
